@@ -91,10 +91,22 @@ struct StreamWorld : IWorld
   std::string rbufKind;
   std::unique_ptr<uint8_t[]> backing;                       // storage behind an ArrayView reader buffer
   std::shared_ptr<AbstractArray<uint8_t>> rbuf;
-  std::unique_ptr<BufferReader> rd;
+  std::unique_ptr<BufferReader> rd; // the reader of Open / OpenAll / OpenFrac (over a copy or the complete buffer)
+  // LIVE readers: constructed over the writer's own (shared, growing) buffer at any time, also before
+  // the data they will read has been written; each has its own cursor
+  struct Live
+  {
+    std::unique_ptr<BufferReader> r;
+    size_t bytesAtCtor; // what the writer held when the reader was constructed
+    size_t movesAtCtor; // relocations of the writer's storage seen until then
+  };
+  std::vector<Live> live;
+  size_t moves = 0;             // how often the writer's storage has moved (observed through data())
+  BufferReader *cur = nullptr;  // the reader the current action addresses
   bool failed = false; // a read on the current reader has thrown (recording policy "stop reading after an exception")
 
-  StreamWorld(const std::string &k) : rbufKind(k) {}
+  bool liveMode = false; // histories of StreamLive: the state of every live reader is reported after every step
+  StreamWorld(const std::string &k, bool lm = false) : rbufKind(k), liveMode(lm) {}
 
   // the item as the concrete C++ object, streamed into ONE write stream (BufferWriter,
   // WriteSizeCalculator, FixedBufferWriter: all through the WriteStream operators)
@@ -194,6 +206,7 @@ struct StreamWorld : IWorld
   void open(size_t k)
   {
     rd.reset();
+    cur = nullptr;
     failed = false;
     const uint8_t *src = w.buffer->data();
     const size_t total = w.buffer->size();
@@ -217,13 +230,14 @@ struct StreamWorld : IWorld
       rbuf = std::make_shared<OwnedArray<uint8_t>>(const_cast<uint8_t *>(src), k);
     }
     rd.reset(new BufferReader(rbuf));
+    cur = rd.get();
   }
 
   template <typename T>
   Json viewToVec(size_t count)
   {
     // size_t n; buf >> n; getView(n * sizeof(T)): the zero-copy way to read an array
-    auto view = rd->getView<uint8_t>(count * sizeof(T));
+    auto view = cur->getView<uint8_t>(count * sizeof(T));
     std::vector<T> out(count);
     if (count) std::memcpy(out.data(), view->data(), count * sizeof(T));
     return arr(out);
@@ -293,7 +307,7 @@ struct StreamWorld : IWorld
   {
     const std::string &t = arg["t"].str();
     const std::string &via = arg["via"].str();
-    BufferReader &r = *rd;
+    BufferReader &r = *cur;
     if (t == "u8") { uint8_t &x = pU8; podDest(x, arg); r >> x; return Json((int)x); }
     if (t == "i32") { int32_t &x = pI32; podDest(x, arg); r >> x; return Json((int)x); }
     if (t == "u64") {
@@ -373,7 +387,7 @@ struct StreamWorld : IWorld
 
   Json probe(const std::string &t)
   {
-    BufferReader &r = *rd;
+    BufferReader &r = *cur;
     if (t == "u8") { uint8_t x; r >> x; }
     else if (t == "i32") { int32_t x; r >> x; }
     else if (t == "u64") { size_t x; r >> x; }
@@ -386,9 +400,9 @@ struct StreamWorld : IWorld
   void readerState(Json &o, bool withSize = false)
   {
     Json st = Json::object();
-    st.set("cursor", num(rd->cursor));
-    st.set("end", rd->end());
-    if (withSize) st.set("size", num(rd->buffer->size()));
+    st.set("cursor", num(cur->cursor));
+    st.set("end", cur->end());
+    if (withSize) st.set("size", num(cur->buffer->size()));
     o.set("st", st);
   }
 
@@ -401,9 +415,31 @@ struct StreamWorld : IWorld
       o.set("skipped", true); // not performed: the orchestrator drops it from the recorded trace
       return o;
     }
-    if (a == "Write") {
+    const bool liveAction = arg.has("r");
+    size_t curStart = 0;
+    if (liveAction) {
+      const size_t r = (size_t)arg["r"].num();
+      if (r < 1 || r > live.size()) throw std::runtime_error("driver: no such live reader");
+      cur = live[r - 1].r.get();
+      curStart = cur->cursor;
+    } else if (a == "Read" || a == "Probe" || a == "View") {
+      cur = rd.get();
+    }
+    if (a == "NewReader") {
+      // a BufferReader over the writer's own buffer, which keeps growing (possibly still empty)
+      Live l;
+      l.r.reset(new BufferReader(w.buffer));
+      l.bytesAtCtor = w.buffer->size();
+      l.movesAtCtor = moves;
+      live.push_back(std::move(l));
+    } else if (a == "Write") {
       const size_t before = w.buffer->size();
+      const uint8_t *dataBefore = w.buffer->data();
       write(arg["item"]);
+      if (w.buffer->data() != dataBefore) {
+        ++moves;
+        o.set("moved", true); // the writer's storage was (re)allocated: information for the vacuity guards
+      }
       if (arg.has("cap") && arg["cap"].num() >= 0) {
         // the same item into a FixedBufferWriter of the capacity the specification computed for it
         FixedBufferWriter fw((size_t)arg["cap"].num());
@@ -428,7 +464,7 @@ struct StreamWorld : IWorld
       open(a == "Open" ? (size_t)arg["k"].num() : a == "OpenAll" ? total : (total * (size_t)arg["pm"].num()) / 1000);
       readerState(o, true);
     } else if (a == "Read" || a == "Probe") {
-      if (!rd) throw std::runtime_error("driver: no reader");
+      if (!cur) throw std::runtime_error("driver: no reader");
       try {
         o.set("ret", a == "Read" ? readItem(arg) : probe(arg["t"].str()));
       } catch (const std::logic_error &e) {
@@ -442,15 +478,16 @@ struct StreamWorld : IWorld
         if (a == "Read") discardDest(arg);
       }
       readerState(o);
-    } else if (a == "View") {
-      if (!rd) throw std::runtime_error("driver: no reader");
-      const size_t cnt = (size_t)(long long)arg["n"].num(); // n < 0: 2^64 + n
+    } else if (a == "View" || a == "ViewRest" || a == "ViewOver") {
+      if (!cur) throw std::runtime_error("driver: no reader");
+      // n < 0: 2^64 + n; ViewRest / ViewOver (live readers): everything written so far / one byte more
+      const size_t cnt = a == "View" ? (size_t)(long long)arg["n"].num() : cur->buffer->size() - cur->cursor + (a == "ViewOver" ? 1 : 0);
       try {
-        auto view = rd->getView<uint8_t>(cnt);
+        auto view = cur->getView<uint8_t>(cnt);
         const size_t vs = view->size();
         o.set("ret", num(vs));
         // use the view the way its receiver would: every byte of it (inside the buffer: silent)
-        if (vs <= rd->buffer->size()) {
+        if (vs <= cur->buffer->size()) {
           volatile unsigned sum = 0;
           for (size_t i = 0; i < vs; ++i) sum = sum + (*view)[i];
         }
@@ -460,6 +497,25 @@ struct StreamWorld : IWorld
       readerState(o);
     } else
       throw std::runtime_error("driver: unknown action " + a);
+    if (liveAction && (a == "Read" || a == "View" || a == "ViewRest")) {
+      // information for the vacuity guards (not compared): were the bytes just read written after the reader
+      // was constructed, and how often has the writer's storage moved since then
+      const Live &l = live[(size_t)arg["r"].num() - 1];
+      o.set("late", curStart >= l.bytesAtCtor && cur->cursor > curStart);
+      o.set("moves", num(moves - l.movesAtCtor));
+    }
+    if (liveMode || !live.empty() || liveAction) {
+      // every live reader as seen from outside, after every step
+      Json rs = Json::array();
+      for (auto &l : live) {
+        Json st = Json::object();
+        st.set("cursor", num(l.r->cursor));
+        st.set("end", l.r->end());
+        st.set("avail", num(l.r->buffer->size() - l.r->cursor));
+        rs.push(st);
+      }
+      o.set("rs", rs);
+    }
     return o;
   }
 };
@@ -528,7 +584,7 @@ struct World
   World(const Json &hist)
   {
     if (hist["kind"].str() == "fixed") w = new FixedWorld();
-    else w = new StreamWorld(hist.has("rbuf") ? hist["rbuf"].str() : std::string("direct"));
+    else w = new StreamWorld(hist.has("rbuf") ? hist["rbuf"].str() : std::string("direct"), hist.has("live") && hist["live"].boolean());
   }
   ~World() { delete w; }
   Json step(const Json &act) { return w->step(act); }
